@@ -176,6 +176,12 @@ def run_sequence_check(chk, prefix, what):
     for k, c in enumerate(cases):
         c["wchunk"] = [0, 0, 0, 1, 2][k % 5]
         c["chunk"] = [0, 0, 1, 0, 3, 0, 64][k % 7]          # ... and hands out what it has whole or in pieces
+        if k % 11 == 3:
+            # ... and sometimes stops in the middle of the script for a while (virtual time)
+            total = sum(len(f["bytes"]) for f in c["frames"])
+            if total > 2:
+                c["pause_at"] = 1 + (k // 11) % (total - 1)
+                c["pause_ms"] = [2500, 11000, 61000][(k // 11) % 3]
     out = replay(binary, cases, wd, "replay")
     mism = []
     n = 0
